@@ -717,6 +717,8 @@ def labels(case):
     ls.append('host_numpy_params:' + case['host_params'])
   if case.get('short_window'):
     ls.append('agnostic_state_with_shorter_window')
+  if any(op[0] == 'apply' and len(set(op[1])) < len(op[1]) for op in case['ops']):
+    ls.append('client_twice_in_one_round')
   if case['system'] in ALGS:
     sizes = [len(c['rows']) // (D + 2) for c in case['pool']]
     if any(sizes[i] == 0 for op in case['ops'] if op[0] == 'apply' for i in op[1]):
@@ -736,7 +738,7 @@ def nontrivial(case, ls):
 # ------------------------------------------------------------------ strategies
 
 @st.composite
-def ops_strategy(draw, tier, npool, allowed):
+def ops_strategy(draw, tier, npool, allowed, repeats=True):
   """3-5 (quick) / 3-8 (thorough) applies with 1-2 / 1-4 branch or roundtrip
   operations placed between them; at most 6 / 12 operations."""
   if tier == 'quick':
@@ -777,6 +779,9 @@ def ops_strategy(draw, tier, npool, allowed):
         back = draw(st.sampled_from(used))
         if back not in members:
           members[draw(st.integers(0, len(members) - 1))] = back
+      if repeats and draw(st.integers(0, 5)) == 0:
+        # sampled with replacement: one client a second time in the same round
+        members.insert(draw(st.integers(0, len(members))), draw(st.sampled_from(members)))
       seeds = [draw(st.integers(0, 2**20)) for _ in members]
     prev_apply = (members, seeds)
     for i in members:
@@ -826,7 +831,11 @@ def algorithm_strategy(alg):
     init = [[draw(st.integers(-8, 8)) for _ in range(D + 1)] for _ in range(k)]
     case = {'system': alg, 'variant': draw(st.integers(0, 2)), 'init': init,
             'pool': pool,
-            'ops': draw(ops_strategy(tier, npool, list(range(npool))))}
+            # (a cohort that lists one id twice: not for the two algorithms
+            # whose per-client outputs are keyed by id -- HypCluster collects
+            # its per-cluster losses per id and cannot place two occurrences)
+            'ops': draw(ops_strategy(tier, npool, list(range(npool)),
+                                     repeats=alg not in ('hyp_cluster', 'apfl')))}
     case.update(draw(other_instance_fields(case['ops'])))
     case['host_params'] = draw(st.sampled_from([None, None, 'F', 'C']))
     if alg == 'agnostic':
